@@ -3,6 +3,9 @@ random.Random(seed); every generator yields case lines of the language documente
 harness/src/main.rs.  Strings are hex encoded ('-' = empty)."""
 import itertools, json, os, random
 
+def unhx(h):
+    try: return bytes.fromhex(h).decode('utf-8', 'replace')
+    except Exception: return ''
 def hx(s):
     b = s.encode('utf-8') if isinstance(s, str) else bytes(s)
     return b.hex() if b else '-'
@@ -297,10 +300,11 @@ def gen_fault(rng, n, kinds=('g', 't')):
                 k = rkey(rng)
                 while k.lower() in t['quals'] or k.lower() == 'checksum': k = rkey(rng)
                 items.append(f'{k}=1')
+                if rng.random() < 0.4: items.append(f'{rcase(rng, k)}=')       # an empty occurrence in between does not free the key
                 bad = f'{rcase(rng, k)}={rng.choice(["2", "1", "%31"])}'
             else:
                 bad = 'checksum=' + rng.choice(['sha1', 'sha1:0', 'sha1:0g', 'sha1:00,md5', 'sha1:00,SHA1:11', 'sha1:00,sha1:00', ':0',
-                                                'sha1:000', 'a:00,', ',a:00', 'a:0%2C', 'sha1:zz', 'Sha1:00,sHA1:00', 'ǅ:00,ǆ:11'])
+                                                'sha1:000', 'a:00,', ',a:00', 'a:0%2C', 'sha1:zz', 'Sha1:00,sHA1:00', 'ǅ:00,ǆ:11', 'md5:aa,md5:aa', 'md5:00,sha1:11,sha1:22,sha256:33', 'sha1:,sha1:', 'Æ:00,æ:11'])
                 if rng.random() < 0.35:
                     c = rng.choice([x for x in "+-_.~!*'();@$=ghzGHZ xX/\\|^[]{}`\"<>" if x not in ',&#:'])   # not ':' - it would move the algorithm/digest boundary
                     d = list(rng.choice(['00', 'a0b1', '0f', 'DEADBEEF']))
@@ -434,8 +438,39 @@ def gen_names(rng, tier):
         yield from cases('A' + chr(cp))
         yield from cases(chr(cp) + '_-')
 
+# ------------------------------------------------------------------ G-lengths: boundary lengths in every position
+LENGTHS = [23, 24, 32, 64, 65, 100, 128, 255, 256, 2048]
+def gen_lengths(kinds=('g', 't', 's')):
+    """strings of length n-1, n, n+1 for the usual capacity / limit values (and every number literal of a changed source line) as type, namespace, name,
+    version, qualifier key and value, checksum algorithm and digest, subpath; plain, and with one character whose lower-casing is longer (U+0130)"""
+    nums = sorted(set(LENGTHS + [x for x in EXTRA['nums'] if 2 <= x <= 4096]))
+    for n in nums:
+        for m in (n - 1, n, n + 1):
+            fill = 'a' * m
+            odd = 'A' * (m - 1) + 'İ' if m >= 1 else ''
+            for k in kinds:
+                ty = 'nuget' if k == 't' else 't'
+                tyb = '5' if k == 't' else hx('t')
+                for v in (fill, odd):
+                    e = ''.join('%%%02X' % b for b in v.encode()) if not v.isascii() else v
+                    yield f'P {k} {hx("pkg:" + ty + "/" + e)}'
+                    yield f'P {k} {hx("pkg:" + ty + "/g/n@" + e)}'
+                    yield f'P {k} {hx("pkg:" + ty + "/" + e + "/n")}'
+                    yield f'P {k} {hx("pkg:" + ty + "/n?k=" + e)}'
+                    yield f'P {k} {hx("pkg:" + ty + "/n#" + e)}'
+                    yield f'B {k} {tyb} {hx(v)} -'
+                    yield f'B {k} {tyb} {hx("n")} V:{hx(v)},S:{hx(v)},U:{hx(v)},Q:{hx("k")}:{hx(v)}'
+                if k != 't' and m <= 300:
+                    yield f'P {k} {hx("pkg:" + fill + "/n")}'
+                    yield f'B {k} {hx("A" * m)} {hx("n")} -'
+                if m <= 300:
+                    yield f'P {k} {hx("pkg:" + ty + "/n?" + fill + "=v")}'
+                    yield f'P {k} {hx("pkg:" + ty + "/n?checksum=" + fill + ":00")}'
+                yield f'P {k} {hx("pkg:" + ty + "/n?checksum=sha1:" + "ab" * (m // 2) + ("" if m % 2 == 0 else "c"))}'
+                yield f'P {k} {hx("pkg:" + ty + "/n#" + "d/" * m + "../../x")}' if m <= 300 else f'P {k} {hx("pkg:" + ty + "/n")}'
+                yield f'P {k} {hx("pkg:" + ty + "/" + "d/" * m + "a//b/n")}' if m <= 300 else f'P {k} {hx("pkg:" + ty + "/n")}'
 # ------------------------------------------------------------------ G-types: type strings through the builder, every built-in carrier
-ODD_TYPES = ['Np m', 'goLang!', 'A/b', 'NuG\u00e9t', 'aB c', 'Zz_', '\u212a8s', 'K8s', '7zip', '3D', '0', '9', 'ſ', 'İ', 'é', 'É', 'café', 'Über', 'ß', 'Σ', 'py٣', '²', 'Ⅻ', '中', 'a\u0301', 'T', 'Tt', 'tT', 'Maven', 'NuGet', 'c++X', 'a.b', '.', '+', '-', 'a-', ' t', 't ', 't\t', 't/n', 't%41', '']
+ODD_TYPES = ['Vendor.Internal-Pkgs.V24', 'Vendor.Internal-Pkg.V23', 'com.example.build-system.artifact-bundle', 'a' * 64, 'a,b', ',', '+npm', '0pypi', '00cargo', 'Np m', 'goLang!', 'A/b', 'NuG\u00e9t', 'aB c', 'Zz_', '\u212a8s', 'K8s', '7zip', '3D', '0', '9', 'ſ', 'İ', 'é', 'É', 'café', 'Über', 'ß', 'Σ', 'py٣', '²', 'Ⅻ', '中', 'a\u0301', 'T', 'Tt', 'tT', 'Maven', 'NuGet', 'c++X', 'a.b', '.', '+', '-', 'a-', ' t', 't ', 't\t', 't/n', 't%41', '']
 def gen_types(kinds=('g', 's', 'b', 'o')):
     tys = list(ODD_TYPES)
     for c in range(128):
@@ -449,10 +484,10 @@ def gen_types(kinds=('g', 's', 'b', 'o')):
             yield f'B {k} {hx(ty)} {hx("")} -'
 
 # ------------------------------------------------------------------ G-build
-VALS = ['', 'x', 'A/b', '/', 'a//b/', 'docs/%2541', 'a%252Fb', 'docs../img/x.', 'lib./i', 'a/.../b', '...', '..../x', 'a///b', 'a/////b//c', '1.0/', 'x ', '\u3000x\u3000', 'vv1', 'Vv1', '%41', '..', 'a/../b', 'é', 'a@b?c#d', ' ', 'a&b=c+d', '"<>`{}', 'a:b']
-QKEYS = ['a', 'A', 'b', 'a.b', 'a_b', 'ab', '!', '', 'checksum', 'Checksum', 'repository_url', 'é', 'type', 'Z', 'File_Name', 'filename']
-QVALS = ['', 'x', 'a&b=c', 'sha1:00', 'SHA1:ZZ', 'B:00,a:FF', 'sha1:0', 'a:,b:', 'v w', 'sha1:00,', ',sha1:00', 'sha1:', 'jar', 'sha3-256:aa,sha3:bb']
-CSOPS = ['-', f'i.{hx("sha1")}.00ff', f'i.{hx("SHA1")}.-', f'i.{hx("md5")}.0a+i.{hx("MD5")}.0b', f'w.{hx("sha1")}.{hx("zz")}',
+VALS = ['', 'x', '%40a', '@a', 'my%20org', 'my org', 'a%252Fb', 'A/b', '/', 'a//b/', 'docs/%2541', 'a%252Fb', 'docs../img/x.', 'lib./i', 'a/.../b', '...', '..../x', 'a///b', 'a/////b//c', '1.0/', 'x ', '\u3000x\u3000', 'vv1', 'Vv1', '%41', '..', 'a/../b', 'é', 'a@b?c#d', ' ', 'a&b=c+d', '"<>`{}', 'a:b']
+QKEYS = ['3rd', '0', 'a/b', 'a[0]', 'k^', 'a', 'A', 'b', 'a.b', 'a_b', 'ab', '!', '', 'checksum', 'Checksum', 'repository_url', 'é', 'type', 'Z', 'File_Name', 'filename']
+QVALS = ['shake256:' + 'ab' * 65, 'sha1:00,k12:' + 'CD' * 128, '', 'x', 'a&b=c', 'sha1:00', 'SHA1:ZZ', 'B:00,a:FF', 'sha1:0', 'a:,b:', 'v w', 'sha1:00,', ',sha1:00', 'sha1:', 'jar', 'sha3-256:aa,sha3:bb']
+CSOPS = [f'i.{hx("shake256")}.' + 'ab' * 65, f'w.{hx("k12")}.' + hx('AB' * 100), f'w.{hx("x")}.' + hx('zz' * 70), '-', f'i.{hx("sha1")}.00ff', f'i.{hx("SHA1")}.-', f'i.{hx("md5")}.0a+i.{hx("MD5")}.0b', f'w.{hx("sha1")}.{hx("zz")}',
          f'w.{hx("sha1")}.{hx("ABC")}', f'i.{hx("ǅ")}.01+i.{hx("ǆ")}.02', f'i.{hx("b")}.00+i.{hx("a")}.ff', f'i.{hx("a")}.00+r.{hx("a")}',
          f'w.{hx("a")}.{hx("AB")}+i.{hx("A")}.cd', f'i.{hx("a,b")}.00']
 GTYPES = ['t', 'T.y+p-e', 'NPM', '', 'a b', 'é', 't%2B', '\u212a8s', '7zip', 'Maven']
@@ -501,7 +536,7 @@ def gen_build(rng, nrand, exhaustive_len=1, kinds=('g', 't')):
         yield f'B {kind} {rng.choice(tyv)} {hx(rng.choice(["n", "", "N-_.m", rstr(rng, 0, 4)]))} {",".join(seq)}'
 
 # ------------------------------------------------------------------ G-qops
-QK = ['k', 'key', '\u212a', '\u212aey', 'a', 'A', 'b', 'B', 'a.b', 'a_b', 'ab', '', '!', 'repository_url', 'checksum', 'é', 'K', 'buildtag', 'BuildTag', 'x-y.z_1', 'vcs_url', 'Type', 'download_url', 'file_name', 'platform', 'classifier']
+QK = ['3rd-party', '7', '0a', '2FA', 'a/b', 'k/', '/', 'k,', 'k:', 'k@', 'k[', 'k^', 'k`', 'k{', 'k', 'key', '\u212a', '\u212aey', 'a', 'A', 'b', 'B', 'a.b', 'a_b', 'ab', '', '!', 'repository_url', 'checksum', 'é', 'K', 'buildtag', 'BuildTag', 'x-y.z_1', 'vcs_url', 'Type', 'download_url', 'file_name', 'platform', 'classifier']
 QV = ['', 'x', 'y']
 def qop_universe():
     ops = ['C', 't', 'l', 'tg', 'tc', 'td', 'tG', f'M:{hx("s")}', f'I:{hx("s")}', f'J:{hx("z")}', f'tr:{hx("u")}', f'tr:-']
@@ -582,7 +617,7 @@ def gen_pt(rng, n, maxlen=3):
     for k in range(0, maxlen + 1):
         for w in itertools.product(letters, repeat=k):
             yield 'T ' + hx(''.join(w))
-    edits = list("abcegilmnoprtuvyskx2.") + ['ſ', 'K', 'ı', 'İ', ' ', '-', '́', 'ｍ'] + EXTRA['chars']
+    edits = list("abcegilmnoprtuvyskx2.+0") + ['00', '+0', 'ſ', 'K', 'ı', 'İ', ' ', '-', '́', 'ｍ'] + EXTRA['chars']
     for name in SEVEN:
         for suf in ['ci', '.org', 'xx', name, ' x', '\t', '\n'] + EXTRA['strs']:
             yield 'T ' + hx(name + suf); yield 'T ' + hx(name.upper() + suf); yield 'T ' + hx(suf + name)
@@ -635,6 +670,11 @@ def gen_pair(rng, n, kinds=('g', 't', 's', 'b', 'o')):
                            (f'Q:{hx("a")}:{hx("1")},U:{hx("zzz")}', f'Q:{hx("a")}:{hx("1")},Q:{hx("b")}:{hx("2")},U:{hx("aaa")}'),
                            (f'D:{hx("arch")}:-', '-'), (f'D:{hx("a")}:{hx("1")},D:{hx("b")}:-', f'D:{hx("a")}:{hx("1")}')]:
             yield f'K B {k} {ty} {hx("n")} {ops1} ~ B {k} {ty} {hx("n")} {ops2}'
+    for x, y in [('@acme', '%40acme'), ('my org', 'my%20org'), ('a%', 'a%25'), ('a/b', 'a%2Fb'), ('é', '%C3%A9'), ('a b', 'a+b')]:
+        for f in ['S', 'N', 'V', 'U', 'Q']:
+            for k, ty in (('g', hx('t')), ('s', hx('t')), ('b', hx('t')), ('t', '4')):
+                mk = lambda v: (f'B {k} {ty} {hx(v)} -' if f == 'N' else f'B {k} {ty} {hx("n")} ' + (f'Q:{hx("k")}:{hx(v)}' if f == 'Q' else f'{f}:{hx(v)}'))
+                yield f'K {mk(x)} ~ {mk(y)}'
     for a, b in [('pkg:t/n@1.0', 'pkg:t/n@1.0?a=1'), ('pkg:t/n?a=1#zzz', 'pkg:t/n?a=1&b=2#aaa'), ('pkg:t/n?arch=i386', 'pkg:t/n?arch=i386&distro=j'), ('pkg:npm/n?a=1', 'pkg:npm/n?a=1&b=2')]:
         for k in ('g', 's', 't'):
             if k == 't' and ':t/' in a: continue
@@ -747,3 +787,10 @@ def gen_serde(rng, n):
         k = rng.choice('gt')
         t = random_tuple(rng, typed=(k == 't'))
         yield f'J {k} {hx(json.dumps(spelling_of(rng, t), ensure_ascii=(rng.random() < 0.5)))}'
+    for n0 in sorted(set(LENGTHS + [x for x in EXTRA['nums'] if 2 <= x <= 8192])):
+        for m in (n0 - 1, n0, n0 + 1):
+            base = 'pkg:npm/g/n?download_url=https://e.x/'
+            if m > len(base):
+                for k in 'gt': yield f'J {k} {hx(json.dumps(base + "a" * (m - len(base))))}'
+    for s in ['pkg:pypi/Django_REST.framework@3.14', 'pkg:nuget/Newtonsoft.Json@13.0.1', 'pkg:maven/commons-io@2.11', 'pkg:PyPI/Foo__Bar', 'pkg:nuget/\u0130', 'pkg:NuGet/A\u00c9']:
+        for k in 'gt': yield f'J {k} {hx(json.dumps(s))}'
